@@ -128,7 +128,7 @@ def run(ctx):
             i = idx[j]
             ctx.fail("ledger:" + v.split(" ")[0], "the allocation trace of %s is not balanced (%s): %s" % (name, v, lines[i][:300]), {"line": lines[i], "trace": traces[j][9:2000], "verdict": v})
         ctx.count("ledger:" + name, len(lines), nontrivial, {"stream": name, "input": lines[0][:160], "trace": traces[0][9:200] if traces else ""})
-        helper = {"flat-containers": "checks._seq_ledger", "hash-containers": "checks._hash_ledger"}.get(name)
+        helper = {"flat-containers": "checks._seq_ledger", "hash-containers": "checks._hash_ledger", "value-trees": "checks._value_ledger"}.get(name)
         if helper:
             m = importlib.import_module(helper)
             # per-operation trace model (Lean) vs the real trace, event for event
@@ -141,14 +141,15 @@ def run(ctx):
 
 def extra_modules():
     ms = []
-    for f, m in (("C16Seq.lean", "Qentem.Props.C16Seq"), ("C16Hash.lean", "Qentem.Props.C16Hash")):
+    for f, m in (("C16Seq.lean", "Qentem.Props.C16Seq"), ("C16Hash.lean", "Qentem.Props.C16Hash"), ("C16Value.lean", "Qentem.Props.C16Value")):
         if os.path.exists(os.path.join(core.LEAN_DIR, "Qentem", "Props", f)):
             ms.append(m)
     return ms
 
 
 AREA_HELPERS = (("checks._seq_ledger", "SEQ_LEDGER_THEOREMS", "compare_traces"),
-                ("checks._hash_ledger", "THEOREMS", "compare_with_model"))
+                ("checks._hash_ledger", "THEOREMS", "compare_with_model"),
+                ("checks._value_ledger", "THEOREMS", "compare_with_model"))
 
 
 def extra_theorems():
